@@ -323,11 +323,15 @@ class StepResult:
         self.ignored_start_panics = 0
 
     def fail(self, ex, prop, what, cond_violated=None, detail=None, model=None):
-        if ex.acc.n('failures') >= 20:
+        props = (prop,) if isinstance(prop, str) else tuple(prop)
+        # at most 12 recorded failures per attribution (a check that looks for C03 must not find its failures crowded
+        # out by twenty C01-only ones), 60 in total
+        key = 'nfail:' + ','.join(props)
+        if ex.acc.get(key, 0) >= 12 or ex.acc.n('failures') >= 60:
             return
+        ex.acc.inc(key)
         if model is None:
             model = ex.model_for(cond_violated if cond_violated is not None else True)
-        props = (prop,) if isinstance(prop, str) else tuple(prop)
         ex.acc.add('failures', dict(prop=props[0], props=props, what=what, model=model, detail=detail))
 
     def collect(self, ex):
@@ -357,8 +361,8 @@ def explore_step(prog, d, tables, N, start, *, partial=False, props=None, is_rel
 
     def prove(prop, what, claim, detail=None):    # prop: id or tuple of ids the failed obligation belongs to
         """PC => claim ?  (claim: bool or z3)"""
-        if ex.acc.n('failures') >= max_failures:
-            return
+        # the solver is asked regardless of how many failures have been recorded: the sequence of queries along a path
+        # prefix must not depend on what other paths found (the replay cache is positional); only the recording is capped
         neg = s_not(claim)
         if ex.check(neg):
             res.fail(ex, prop, what, neg, detail)
@@ -435,8 +439,10 @@ def explore_step(prog, d, tables, N, start, *, partial=False, props=None, is_rel
                     if kind != 'none' and conc(cb[5]) != ee:
                         res.fail(ex, 'C13', f'item after callback ends at {ee} but the callback left the lexer at {cb[5]}')
                 elif kind == 'skip':
-                    prove('C01', f'skip {ss}..{ee} is not the longest match from {t}', R.longest_ok(t, ee))
-                    prove('C01', f'skip {ss}..{ee}: a skip pattern is not the highest-priority match',
+                    # a skipped region that no skip pattern matches is also a hole in C03's tiling ("the gaps between
+                    # items are exactly the skipped regions")
+                    prove(('C01', 'C03'), f'skip {ss}..{ee} is not the longest match from {t}', R.longest_ok(t, ee))
+                    prove(('C01', 'C03'), f'skip {ss}..{ee}: a skip pattern is not the highest-priority match',
                           R.winner_in(t, ee, cbspec.plain(('skip',))))
                 elif kind == 'ok':
                     prove('C01', f'token {ss}..{ee} is not the longest match from {t}', R.longest_ok(t, ee))
